@@ -16,6 +16,7 @@ mult = z3.Function("mult", K, RealS)
 mr = z3.Function("mr", K, RealS)
 cr = z3.Function("cr", K, RealS)
 is_cash = z3.Function("is_cash", K, BoolS)
+is_rate = z3.Function("is_rate", K, BoolS)     # instance of contracts.Rate (whose verify() differs)
 sh = z3.Function("sh", K, K)           # static hashing at the (fixed) current clock
 
 TRUE, FALSE = z3.BoolVal(True), z3.BoolVal(False)
@@ -197,7 +198,14 @@ def lift_fl(x):
         return Fl(x)
     if z3.is_expr(x) and x.sort() == IntS:
         return Fl(z3.ToReal(x))
+    if type(x).__name__ == "Builtin" and getattr(x, "name", None) == "np.inf":
+        # A(inf): numpy's infinity is an unconstrained real constant here; in the code under contract it is only ever stored as the
+        # default size of a quote (sizes take part in no property), never used in arithmetic or comparisons
+        return Fl(FLOAT_INF)
     raise TypeError("cannot use %r as a float" % (x,))
+
+
+FLOAT_INF = z3.Real("np.inf")
 
 
 def vite(c, a, b):
